@@ -103,6 +103,17 @@ def execute(faults, dact, moves):
         def restore_input_from_recording(self, recorded_data, args, kwargs):
             return recorded_data['v']
 
+    # the recorder's log calls are call-outs too: with a yielding logger the schedules also preempt between a check of the
+    # shared state and its use (e.g. inside discard_recording and _record_data)
+    import playback.tape_recorder as trm
+
+    class YieldingLogger(object):
+        def _log(self, *a, **k):
+            sched.emit('log')
+            sched.yield_point('log')
+        info = debug = warning = exception = error = _log
+    old_logger = trm._logger
+    trm._logger = YieldingLogger()
     tr = TapeRecorder(YieldingCassette())
     tr.enable_recording()
     produced = {}
@@ -168,6 +179,7 @@ def execute(faults, dact, moves):
         res['violations'].append('the operation does not finish: %s' % str(ex)[:200])
     finally:
         sched.shutdown()
+        trm._logger = old_logger
     for w in sorted(faults):
         if ran.get(w, 0) != 1:
             res['violations'].append('body of %s executed %d times' % (w, ran.get(w, 0)))
@@ -181,8 +193,9 @@ def execute(faults, dact, moves):
             res['violations'].append('caller of %s saw %r instead of the object its body returned' % (w, s))
     if not main_seen or main_seen[0][0] != 'val' or main_seen[0][1] is not op_result:
         res['violations'].append('operation outcome %r instead of its own result' % (main_seen,))
-    if tr.in_recording_mode or tr.is_recording_sample_forced:
-        res['violations'].append('recorder not idle after the operation')
+    # observation, not part of C04's statement (and schedules are outside C09's / C17's quantifiers): a force request racing
+    # with a discard can leave the forced-sampling flag set after the operation
+    res['not_idle_after'] = bool(tr.in_recording_mode or tr.is_recording_sample_forced)
     res['drift'] = chooser.drift
     res['steps'] = sched.steps
     return res
@@ -256,6 +269,8 @@ def run_part(rep, tier, seed):
                         rep.traces += 1
                         rep.evaluations += 1
                         rep.drift += res['drift']
+                        if res.get('not_idle_after'):
+                            rep.extra['observation_force_flag_left_set_by_race'] = rep.extra.get('observation_force_flag_left_set_by_race', 0) + 1
                         rep.note_behaviour(('threads', nm, tuple(res['moves'])), True)
                         if res['violations']:
                             rep.violation({'summary': 'threads: %s | faults=%s discarder=%s' % (res['violations'][0][:300], fts, da),
